@@ -89,6 +89,8 @@ func (in *Interp) runPath(fn *ssa.Function, argv []Value, p pendingPath) {
 	in.pathMaybeInfeasible = false
 	in.deferOwner = nil
 	in.errWhere = ""
+	in.ctxBounds = map[*Term]urange{}
+	in.ctxMemo = map[int]urange{}
 	in.epoch++
 	in.cs.Paths++
 	status := "ok"
